@@ -354,6 +354,135 @@ mod proofs {
     }
   }
 
+  /// `Level` on ANY(n) with the FIFO shim `VecQueue` standing in for `VecDeque` (hook):
+  /// from every start node it visits exactly the subtree, once each, by non-decreasing depth
+  fn level_any(nmax: usize) {
+    let t = any_tree(nmax, 1);
+    let (last, depth) = subtree_info(t.n, &t.parent);
+    let g = mk_grep(SRC_X, t.data.clone());
+    let start: usize = kani::any();
+    kani::assume(start < t.n);
+    let node = node_at(&g, start);
+    let mut pos = [usize::MAX; MAXN];
+    let mut count = 0;
+    let mut it = Level::new(&node);
+    while let Some(v) = it.next() {
+      let vi = idx_of(&v);
+      assert!(vi >= start && vi <= last[start], "level order left the subtree");
+      assert!(pos[vi] == usize::MAX, "node visited twice");
+      pos[vi] = count;
+      count += 1;
+    }
+    std::mem::forget(it);
+    assert!(count == last[start] - start + 1, "level order must visit the whole subtree");
+    let mut u = 0;
+    while u < MAXN {
+      let mut v = u + 1;
+      while v < MAXN {
+        if u >= start && v <= last[start] {
+          // same depth: document order; otherwise shallower first
+          assert!((pos[u] < pos[v]) == (depth[u] <= depth[v]));
+        }
+        v += 1;
+      }
+      u += 1;
+    }
+    kani::cover!(count == 4);
+    kani::cover!(count == 2 && start > 0);
+    std::mem::forget(g);
+  }
+
+  /// `Level` on one concrete shape (parent vector given), labels symbolic, from the root and
+  /// from node 1: everything the queue does has a concrete size
+  fn level_fixed(n: usize, parent: [u8; MAXN]) {
+    let mut d = TreeData::from_parents(n, &parent);
+    let mut i = 0;
+    while i < MAXN {
+      if i < n {
+        d.nodes[i].kind = any_kind();
+        d.nodes[i].named = kani::any();
+      }
+      i += 1;
+    }
+    d.layout(&[1; MAXN], &[0; MAXN]);
+    d.fix_named_counts();
+    let (last, depth) = subtree_info(n, &parent);
+    let any_unnamed_inner = !d.nodes[1].named;
+    let g = mk_grep(SRC_X, d);
+    let mut start = 0;
+    while start < 2 {
+      let node = node_at(&g, start);
+      let mut pos = [usize::MAX; MAXN];
+      let mut count = 0;
+      let mut it = Level::new(&node);
+      while let Some(v) = it.next() {
+        let vi = idx_of(&v);
+        assert!(vi >= start && vi <= last[start], "level order left the subtree");
+        assert!(pos[vi] == usize::MAX, "node visited twice");
+        pos[vi] = count;
+        count += 1;
+      }
+      std::mem::forget(it);
+      assert!(count == last[start] - start + 1, "level order must visit the whole subtree");
+      let mut u = 0;
+      while u < MAXN {
+        let mut v = u + 1;
+        while v < MAXN {
+          if u >= start && v <= last[start] {
+            assert!((pos[u] < pos[v]) == (depth[u] <= depth[v]));
+          }
+          v += 1;
+        }
+        u += 1;
+      }
+      start += 1;
+    }
+    kani::cover!(any_unnamed_inner);
+    kani::cover!(!any_unnamed_inner);
+    std::mem::forget(g);
+  }
+
+  /// root -> 1 -> 2, root -> 3
+  #[kani::proof]
+  #[kani::unwind(6)]
+  fn c19_levelq_shape_a() {
+    let mut p = [0u8; MAXN];
+    p[2] = 1;
+    level_fixed(4, p);
+  }
+  /// root -> 1 -> {2, 3}
+  #[kani::proof]
+  #[kani::unwind(6)]
+  fn c19_levelq_shape_b() {
+    let mut p = [0u8; MAXN];
+    p[2] = 1;
+    p[3] = 1;
+    level_fixed(4, p);
+  }
+  /// root -> 1 -> 2 -> 3 (chain)
+  #[kani::proof]
+  #[kani::unwind(6)]
+  fn c19_levelq_shape_c() {
+    let mut p = [0u8; MAXN];
+    p[2] = 1;
+    p[3] = 2;
+    level_fixed(4, p);
+  }
+  /// root -> {1, 2 -> 3}
+  #[kani::proof]
+  #[kani::unwind(6)]
+  fn c19_levelq_shape_d() {
+    let mut p = [0u8; MAXN];
+    p[3] = 2;
+    level_fixed(4, p);
+  }
+
+  #[kani::proof]
+  #[kani::unwind(6)]
+  fn c19_levelq_order_n4() {
+    level_any(4);
+  }
+
   #[kani::proof]
   #[kani::unwind(10)]
   fn c19_level_order_shapes_n4() {
